@@ -64,7 +64,7 @@ def gen_project(rng):
     return tasks, sources
 
 
-def gen_history(rng, idx, base):
+def gen_history(rng, idx, base, p_expr=0.12):
     tasks, sources = gen_project(rng)
     ops = [{"op": "set", "n": 101, "c": rng.randint(1, 40)}, {"op": "set", "n": 102, "c": rng.randint(1, 40)}]
     if any(9 in t["pdeps"] for t in tasks):
@@ -92,6 +92,18 @@ def gen_history(rng, idx, base):
             cfg["force"] = True
         elif r < 0.2:
             cfg["dry_run"] = True
+        if rng.random() < p_expr:
+            # a selection: by a declared task, by generated tasks (one, or all of a stage), or excluding some
+            t = rng.choice(tasks)
+            gens = [x for x in tasks if x["is_gen"]]
+            if gens and rng.random() < 0.7:
+                # the generator is selected, its tasks only partly (or not at all)
+                g = rng.choice(gens)
+                p = g["pdeps"][0]
+                cfg["expression"] = rng.choice([f"t{g['id']}_", f"t{g['id']}_ or t20{p}00_", f"t{g['id']}_ or t40{p}",
+                                                f"not t20{p}01_", f"not t40{p}", f"t{g['id']}_ or t{t['id']}_"])
+            else:
+                cfg["expression"] = rng.choice([f"t{t['id']}_", f"t{t['id']}_ or t2010", "t2010", "t20100_", "not t2020", "t40", f"not t{t['id']}_"])
         faults = {}
         if rng.random() < 0.15:
             t = rng.choice(tasks)
@@ -100,9 +112,9 @@ def gen_history(rng, idx, base):
     return {"idx": idx, "root": str(Path(base) / f"c{idx}" / "p"), "ops": ops, "sources": sources}
 
 
-def ptask_term(t, V):
-    base = C("mkTask", t["id"], V, t["deps"], t["prods"], [], Raw("None"), bool(t["skip"]), [], bool(t["persist"]), Zi(0), [],
-             [[2]] if t.get("two_stage") else [])
+def ptask_term(t, V, name=None):
+    base = C("mkTask", t["id"], V, t["deps"], t["prods"], [], Raw("None"), bool(t["skip"]), [], bool(t["persist"]), Zi(0),
+             [[ord(c) for c in name]] if name else [], [[2]] if t.get("two_stage") else [])
     return C("mkPT", base, t["pdeps"], t["pprods"], bool(t["is_gen"]), bool(t["clears"]))
 
 
@@ -124,7 +136,8 @@ def history_term(case, obs):
                 t = sig2tid.get(sig)
                 if t is not None and t not in pref:
                     pref.append(t)
-            tt = [ptask_term(t, o["mods"][str(t["module"])][0]) for t in op["tasks"]]
+            tid2name = {EC.tid_of_name(s["name"]): s["name"] for s in o.get("tasks", [])}
+            tt = [ptask_term(t, o["mods"][str(t["module"])][0], tid2name.get(t["id"])) for t in op["tasks"]]
             fl = [(int(t), EC.fault_term(f)) for t, f in op["faults"].items()]
             ops.append(C("PBuild", EC.cfg_term(op["cfg"]), tt, fl, pref))
     return ops
@@ -229,22 +242,63 @@ def run_id_scenarios(out, rng, n):
                 out.violation("a generated task ran twice in one build", {"scenario": sc["file_sets"], "ran": o["ran"]})
 
 
-def run(out, tier, seed, proof):
-    rng = rng_for(seed, "c18")
-    n = 60 if tier == "quick" else 800
-    base = tempfile.mkdtemp(prefix="verifeng_C18_")
+def o_selection(cimp, ctx):
+    """C06 on projects with generated tasks: a started task matches the -k expression or something
+    that matches depends on it (generated tasks: 20000+k reads file 10000+k of pattern k // 100 and
+    writes 30000+k, which 40000+k reads)."""
+    expr = ctx["op"]["cfg"]["expression"]
+    probs = []
+    if not expr or cimp["exit"] not in (0, 1):
+        return probs
+    tasks = ctx["op"]["tasks"]
+    names = {EC.tid_of_name(s["name"]): s["name"] for s in ctx["raw"].get("tasks", [])}
     try:
-        cases = [gen_history(rng, i, base) for i in range(n)]
+        match = {i for i, nm in names.items() if EC.eval_expr(expr, lambda w, nm=nm: w.lower() in nm.lower())}
+    except Exception:  # noqa: BLE001
+        return probs
+    # what each task reads / writes
+    reads, writes = {}, {}
+    for t in tasks:
+        reads[t["id"]] = set(t["deps"]) | {("pat", p) for p in t["pdeps"]}
+        writes[t["id"]] = set(t["prods"]) | {("pat", p) for p in t["pprods"]}
+    for i in names:
+        if 20000 <= i < 30000:
+            k = i - 20000
+            reads[i] = {("pat", k // 100)}; writes[i] = {30000 + k}
+        elif 40000 <= i < 50000:
+            k = i - 40000
+            reads[i] = {30000 + k}; writes[i] = {50000 + k}
+    eligible, frontier = set(match), list(match)
+    while frontier:
+        x = frontier.pop()
+        for u, wr in writes.items():
+            if u not in eligible and wr & reads.get(x, set()):
+                eligible.add(u); frontier.append(u)
+    # a generator is needed to create generated tasks that match
+    for t in tasks:
+        if t["is_gen"] and t["id"] not in eligible and t["id"] in match:
+            eligible.add(t["id"])
+    for s_ in set(EO._started(cimp)):
+        if s_ in names and s_ not in eligible:
+            probs.append((f"task {s_} ({names[s_]}) was executed although neither it nor anything depending on it matches -k {expr!r}", ()))
+    return probs
+
+
+def run_phistories(out, cases, seed, tag, oracles):
+    """Implementation vs Model/EngineP.v on the given histories; returns (#builds, #histories)."""
+    base = str(Path(cases[0]["root"]).parent.parent) if cases else None
+    try:
         obs_all = EC.run_impl_histories(cases, hashseed=seed % 5)
     finally:
-        shutil.rmtree(base, ignore_errors=True)
+        if base:
+            shutil.rmtree(base, ignore_errors=True)
     terms, idx = [], []
     for ci, (case, obs) in enumerate(zip(cases, obs_all)):
         if any("raised" in o for o in obs):
             out.disagreement("pytask.build raised", {"case": case, "obs": [o.get("raised") for o in obs]})
             continue
         terms.append(history_term(case, obs)); idx.append(ci)
-    model = coq_eval_cases("C18", IMPORTS, "run_phist", terms, shard=10)
+    model = coq_eval_cases(tag, IMPORTS, "run_phist", terms, shard=10)
     nb = 0
     for ci, mo in zip(idx, model):
         case, obs = cases[ci], obs_all[ci]
@@ -265,15 +319,26 @@ def run(out, tier, seed, proof):
                 out.count("outcome_" + EC.OUTCOMES[oc])
             out.count("children_reported", sum(1 for t, _ in cimp["reports"] if t >= 20000))
             ctx = {"case": case, "bi": bi, "op": op, "prev": prev, "raw": o, "sigs": sigs, "modsha": modsha}
-            found = o_c18(cimp, ctx)
+            found = []
+            for orc in oracles:
+                found = found + orc(cimp, ctx)
             if d and ok_case:
                 ok_case = False
                 out.disagreement("provisional engine observation differs from the model", {"history_ops": case["ops"], "build_index": bi, "diffs": d[:3]})
             for what, fids in found:
                 out.violation(what, {"history_ops": case["ops"], "build_index": bi, "reports": cimp["reports"], "log": cimp["log"]}, finding_matchers=fids)
             prev.append((op, cimp, o))
+    return nb, len(idx)
+
+
+def run(out, tier, seed, proof):
+    rng = rng_for(seed, "c18")
+    n = 60 if tier == "quick" else 800
+    base = tempfile.mkdtemp(prefix="verifeng_C18_")
+    cases = [gen_history(rng, i, base) for i in range(n)]
+    nb, nh = run_phistories(out, cases, seed, "C18", [o_c18, o_selection])
     run_id_scenarios(out, rng, 4 if tier == "quick" else 40)
     out.coverage["builds_compared"] = nb
-    out.coverage["traces_validated_against_impl"] = len(idx)
+    out.coverage["traces_validated_against_impl"] = nh
     out.sample({"history": [o if o["op"] != "build" else {"op": "build", "cfg": o["cfg"],
                 "tasks": [{k: t[k] for k in ("id", "deps", "prods", "pdeps", "pprods", "is_gen", "clears", "two_stage", "pspell")} for t in o["tasks"]]} for o in cases[0]["ops"]]})
